@@ -103,8 +103,8 @@ class Ctx:
                 return True
             return cb["key"] not in skip and cb["key"] not in api and not (cb.get("vis") or {}).get("exported", True)
         from .mirxf import desugar_option_calls, desugar_range_calls, desugar_result_map, desugar_option_filter
-        from .mirxf import thread_desugared_jumps, desugar_checked_arith
-        return thread_desugared_jumps(desugar_checked_arith(db, desugar_option_filter(db, desugar_result_map(db, desugar_range_calls(db, desugar_option_calls(db, inline_calls(db, b, pred)))))))
+        from .mirxf import thread_desugared_jumps, desugar_checked_arith, desugar_bool_then
+        return thread_desugared_jumps(desugar_checked_arith(db, desugar_option_filter(db, desugar_result_map(db, desugar_range_calls(db, desugar_option_calls(db, desugar_bool_then(db, inline_calls(db, b, pred))))))))
 
     def analysis_inl(self, cfg, key, entry_facts=None, split=False, keep=(), tag="", force=()):
         """Analysis of `key` with the crate's private (non-exported, unmodelled) helper functions inlined at their call sites,
